@@ -130,7 +130,7 @@ Theorem new_doc_sighelp_total t d line col :
   new_doc_res t = ODone d -> exists r, signature_help d line col = ROk r.
 Proof.
   intros H. unfold signature_help, doc_cursor.
-  destruct (find_decl_total (d_toks d) (get_insertion_index line col (d_text d)) _ (new_doc_cursor_pre t d H)) as [g Hg].
+  destruct (HoverProofs.find_decl_total (d_toks d) (get_insertion_index line col (d_text d)) _ (new_doc_cursor_pre t d H)) as [g Hg].
   rewrite Hg. cbn [rbind c_index]. set (index := get_insertion_index line col (d_text d)).
   destruct (new_doc_decls_bounded t d H) as [HN Hdb].
   destruct (find_proc_total (d_toks d) index (pg_decls (d_ast d))) as [p Hp].
